@@ -7,6 +7,8 @@ import Splipy.Properties.C02
 import Splipy.Lemmas.C03Real
 import Splipy.Lemmas.C03RealModel
 import Splipy.Lemmas.C03DerivSplineObj
+import Splipy.Lemmas.C03DerivSplineExist
+import Splipy.Lemmas.Smooth
 import Mathlib.Data.Real.Archimedean
 
 /-!
@@ -1169,61 +1171,186 @@ theorem C03_derivative_spline_model (o o' : Obj K) (tol : K) (dir : ℕ)
   · intro n j v hper hj hn
     exact derivativeMatrix_row_periodic (o.basis dir) n j hper hj hn v
 
-/-! ### Object level: `get_derivative_spline(dir).evaluate(u) = derivative(u, d=e_dir)` through the model evaluator -/
+/-! ### Object level: `get_derivative_spline(dir).evaluate(u) = derivative(u, d=e_dir)` through the model evaluator
+
+Every parametric dimension and EVERY direction.  The differentiated direction must be `Basis.DSplineReady`:
+valid clamped non-periodic of order ≥ 2 (`τ_0 = τ_{p-1}`, `τ_n = τ_{n+p-1}`), or periodic (any continuity `k ≥ 0`)
+with at least two basis functions (for one function the pinned code overwrites `C[0,0]`, listed finding).  The
+other directions are arbitrary valid bases.  `get_derivative_spline(dir)` is PROVED to succeed
+(`∃ o', … = .ok o'`); parameters: `Basis.DSplineOk` in the differentiated direction (admissible; inside the domain
+when the direction is `C⁰`-periodic, whose derivative spline is no longer periodic), admissible elsewhere.  Grid
+(`tensor=True`) and pointwise (`tensor=False`) form.  `evaluate` is the limit from above, so the statements are
+for `above=True`; `C03_above_irrelevant_off_knots` shows that away from the knots `above=False` gives the same
+rows. -/
 
 section dsplineobj
 variable [IsStrictOrderedRing K]
 
-/-- **Curve.**  Non-rational curve on a valid, non-periodic basis of order ≥ 2 with clamped ends
-(`τ_0 = τ_{p-1}`, `τ_n = τ_{n+p-1}`).  If the model's `get_derivative_spline(0)` returns `o'`, then for
-admissible parameters `o'.evaluate(us)` and `o.derivative(us, d=1)` both succeed (through the MODEL evaluator
-and the MODEL derivative) and agree entry by entry. -/
-theorem C03_derivative_spline_obj_curve {o o' : Obj K} {b : Basis K} (hb : o.bases = #[b]) (hv : b.Valid)
-    (hper : b.periodic = -1) (hp : 2 ≤ b.order)
-    (hc0 : b.kn (b.order - 1) = b.kn 0) (hcN : b.kn (b.nAll + b.order - 1) = b.kn b.nAll)
-    {nc : ℕ} (hs : o.cps.shape = [b.numFunctions, nc]) (hr : o.rational = false) {tol : K}
-    (htol : 0 < tol) (h : o.getDerivativeSpline tol 0 = .ok o') {us : List K}
-    (hus : ∀ u ∈ us, b.Admissible tol u) :
-    ∃ rv rd, o'.evaluate tol [us] true = .ok rv ∧
-      o.derivativeGeneric tol [us] [1] [true] true = .ok rd ∧
-      ∀ i c, i < us.length → c < nc → rv.get (i * nc + c) = rd.get (i * nc + c) :=
-  Obj.derivSpline_curve hb hv hper hp hc0 hcN hs hr htol h hus
+/-- **Curve.**  `get_derivative_spline(0)` succeeds and `o'.evaluate(us, tensor)` = `o.derivative(us, d=1, tensor)`
+entry by entry (both through the MODEL functions). -/
+theorem C03_derivative_spline_obj_curve {o : Obj K} {b : Basis K} (hb : o.bases = #[b]) (hv : b.Valid)
+    (hready : b.DSplineReady) {nc : ℕ} (hs : o.cps.shape = [b.numFunctions, nc])
+    (hr : o.rational = false) {tol : K} (htol : 0 < tol) :
+    ∃ o', o.getDerivativeSpline tol 0 = .ok o' ∧
+      ∀ us : List K, (∀ u ∈ us, b.DSplineOk tol u) → ∀ tensor : Bool,
+        ∃ rv rd, o'.evaluate tol [us] tensor = .ok rv ∧
+          o.derivativeGeneric tol [us] [1] [true] tensor = .ok rd ∧
+          ∀ i c, i < us.length → c < nc → rv.get (i * nc + c) = rd.get (i * nc + c) := by
+  obtain ⟨o', nb, hget, hO, hdir⟩ := Obj.exists_derivObj (o := o) (b := b) (dir := 0)
+    (Obj.basis_zero hb) (by unfold Obj.pardim; rw [hs]; simp) (by rw [hs]; rfl) hr hv hready htol.le
+  exact ⟨o', hget, fun us hus tensor => Obj.derivSplineG_curve hb hv hs hr htol hdir hO hus tensor⟩
 
-/-- **Surface, first direction**: `get_derivative_spline(0).evaluate(us, vs) = derivative(us, vs, d=(1,0))`
-(first basis clamped non-periodic of order ≥ 2; second basis any valid basis, periodic or not). -/
-theorem C03_derivative_spline_obj_surface_u {o o' : Obj K} {b1 b2 : Basis K} (hb : o.bases = #[b1, b2])
-    (hv1 : b1.Valid) (hv2 : b2.Valid) (hper : b1.periodic = -1) (hp : 2 ≤ b1.order)
-    (hc0 : b1.kn (b1.order - 1) = b1.kn 0) (hcN : b1.kn (b1.nAll + b1.order - 1) = b1.kn b1.nAll)
-    {nc : ℕ} (hs : o.cps.shape = [b1.numFunctions, b2.numFunctions, nc]) (hr : o.rational = false)
-    {tol : K} (htol : 0 < tol) (h : o.getDerivativeSpline tol 0 = .ok o') {us vs : List K}
-    (hus : ∀ u ∈ us, b1.Admissible tol u) (hvs : ∀ v ∈ vs, b2.Admissible tol v) :
-    ∃ rv rd, o'.evaluate tol [us, vs] true = .ok rv ∧
-      o.derivativeGeneric tol [us, vs] [1, 0] [true, true] true = .ok rd ∧
-      ∀ i1 i2 c, i1 < us.length → i2 < vs.length → c < nc →
-        rv.get ((i1 * vs.length + i2) * nc + c) = rd.get ((i1 * vs.length + i2) * nc + c) :=
-  Obj.derivSpline_surface_u hb hv1 hv2 hper hp hc0 hcN hs hr htol h hus hvs
+/-- **Surface, first direction**: `get_derivative_spline(0).evaluate(us, vs) = derivative(us, vs, d=(1,0))`, grid and
+pointwise. -/
+theorem C03_derivative_spline_obj_surface_u {o : Obj K} {b1 b2 : Basis K} (hb : o.bases = #[b1, b2])
+    (hv1 : b1.Valid) (hv2 : b2.Valid) (hready : b1.DSplineReady) {nc : ℕ}
+    (hs : o.cps.shape = [b1.numFunctions, b2.numFunctions, nc]) (hr : o.rational = false)
+    {tol : K} (htol : 0 < tol) :
+    ∃ o', o.getDerivativeSpline tol 0 = .ok o' ∧
+      ∀ us vs : List K, (∀ u ∈ us, b1.DSplineOk tol u) → (∀ v ∈ vs, b2.Admissible tol v) →
+        (∃ rv rd, o'.evaluate tol [us, vs] true = .ok rv ∧
+          o.derivativeGeneric tol [us, vs] [1, 0] [true, true] true = .ok rd ∧
+          ∀ i1 i2 c, i1 < us.length → i2 < vs.length → c < nc →
+            rv.get ((i1 * vs.length + i2) * nc + c) = rd.get ((i1 * vs.length + i2) * nc + c)) ∧
+        (vs.length = us.length →
+          ∃ rv rd, o'.evaluate tol [us, vs] false = .ok rv ∧
+            o.derivativeGeneric tol [us, vs] [1, 0] [true, true] false = .ok rd ∧
+            ∀ i c, i < us.length → c < nc → rv.get (i * nc + c) = rd.get (i * nc + c)) := by
+  obtain ⟨o', nb, hget, hO, hdir⟩ := Obj.exists_derivObj (o := o) (b := b1) (dir := 0)
+    (Obj.basis_two_zero hb) (by unfold Obj.pardim; rw [hs]; simp) (by rw [hs]; rfl) hr hv1 hready htol.le
+  exact ⟨o', hget, fun us vs hus hvs => Obj.derivSplineG_surface_u hb hv1 hv2 hs hr htol hdir hO hus hvs⟩
 
 /-- **Surface, second direction**: `get_derivative_spline(1).evaluate(us, vs) = derivative(us, vs, d=(0,1))`. -/
-theorem C03_derivative_spline_obj_surface_v {o o' : Obj K} {b1 b2 : Basis K} (hb : o.bases = #[b1, b2])
-    (hv1 : b1.Valid) (hv2 : b2.Valid) (hper : b2.periodic = -1) (hp : 2 ≤ b2.order)
-    (hc0 : b2.kn (b2.order - 1) = b2.kn 0) (hcN : b2.kn (b2.nAll + b2.order - 1) = b2.kn b2.nAll)
-    {nc : ℕ} (hs : o.cps.shape = [b1.numFunctions, b2.numFunctions, nc]) (hr : o.rational = false)
-    {tol : K} (htol : 0 < tol) (h : o.getDerivativeSpline tol 1 = .ok o') {us vs : List K}
-    (hus : ∀ u ∈ us, b1.Admissible tol u) (hvs : ∀ v ∈ vs, b2.Admissible tol v) :
-    ∃ rv rd, o'.evaluate tol [us, vs] true = .ok rv ∧
-      o.derivativeGeneric tol [us, vs] [0, 1] [true, true] true = .ok rd ∧
-      ∀ i1 i2 c, i1 < us.length → i2 < vs.length → c < nc →
-        rv.get ((i1 * vs.length + i2) * nc + c) = rd.get ((i1 * vs.length + i2) * nc + c) :=
-  Obj.derivSpline_surface_v hb hv1 hv2 hper hp hc0 hcN hs hr htol h hus hvs
+theorem C03_derivative_spline_obj_surface_v {o : Obj K} {b1 b2 : Basis K} (hb : o.bases = #[b1, b2])
+    (hv1 : b1.Valid) (hv2 : b2.Valid) (hready : b2.DSplineReady) {nc : ℕ}
+    (hs : o.cps.shape = [b1.numFunctions, b2.numFunctions, nc]) (hr : o.rational = false)
+    {tol : K} (htol : 0 < tol) :
+    ∃ o', o.getDerivativeSpline tol 1 = .ok o' ∧
+      ∀ us vs : List K, (∀ u ∈ us, b1.Admissible tol u) → (∀ v ∈ vs, b2.DSplineOk tol v) →
+        (∃ rv rd, o'.evaluate tol [us, vs] true = .ok rv ∧
+          o.derivativeGeneric tol [us, vs] [0, 1] [true, true] true = .ok rd ∧
+          ∀ i1 i2 c, i1 < us.length → i2 < vs.length → c < nc →
+            rv.get ((i1 * vs.length + i2) * nc + c) = rd.get ((i1 * vs.length + i2) * nc + c)) ∧
+        (vs.length = us.length →
+          ∃ rv rd, o'.evaluate tol [us, vs] false = .ok rv ∧
+            o.derivativeGeneric tol [us, vs] [0, 1] [true, true] false = .ok rd ∧
+            ∀ i c, i < us.length → c < nc → rv.get (i * nc + c) = rd.get (i * nc + c)) := by
+  obtain ⟨o', nb, hget, hO, hdir⟩ := Obj.exists_derivObj (o := o) (b := b2) (dir := 1)
+    (Obj.basis_two_one hb) (by unfold Obj.pardim; rw [hs]; simp) (by rw [hs]; rfl) hr hv2 hready htol.le
+  exact ⟨o', hget, fun us vs hus hvs => Obj.derivSplineG_surface_v hb hv1 hv2 hs hr htol hdir hO hus hvs⟩
+
+/-- **Volume, direction 0** (same reading as for surfaces). -/
+theorem C03_derivative_spline_obj_volume_u {o : Obj K} {b1 b2 b3 : Basis K} (hb : o.bases = #[b1, b2, b3])
+    (hv1 : b1.Valid) (hv2 : b2.Valid) (hv3 : b3.Valid) (hready : b1.DSplineReady) {nc : ℕ}
+    (hs : o.cps.shape = [b1.numFunctions, b2.numFunctions, b3.numFunctions, nc]) (hr : o.rational = false)
+    {tol : K} (htol : 0 < tol) :
+    ∃ o', o.getDerivativeSpline tol 0 = .ok o' ∧
+      ∀ us vs ws : List K, (∀ u ∈ us, b1.DSplineOk tol u) → (∀ v ∈ vs, b2.Admissible tol v) →
+        (∀ w ∈ ws, b3.Admissible tol w) →
+        (∃ rv rd, o'.evaluate tol [us, vs, ws] true = .ok rv ∧
+          o.derivativeGeneric tol [us, vs, ws] [1, 0, 0] [true, true, true] true = .ok rd ∧
+          ∀ i1 i2 i3 c, i1 < us.length → i2 < vs.length → i3 < ws.length → c < nc →
+            rv.get (((i1 * vs.length + i2) * ws.length + i3) * nc + c) =
+              rd.get (((i1 * vs.length + i2) * ws.length + i3) * nc + c)) ∧
+        (vs.length = us.length → ws.length = us.length →
+          ∃ rv rd, o'.evaluate tol [us, vs, ws] false = .ok rv ∧
+            o.derivativeGeneric tol [us, vs, ws] [1, 0, 0] [true, true, true] false = .ok rd ∧
+            ∀ i c, i < us.length → c < nc → rv.get (i * nc + c) = rd.get (i * nc + c)) := by
+  obtain ⟨o', nb, hget, hO, hdir⟩ := Obj.exists_derivObj (o := o) (b := b1) (dir := 0)
+    (by unfold Obj.basis; rw [hb]; rfl) (by unfold Obj.pardim; rw [hs]; simp) (by rw [hs]; rfl) hr
+    hv1 hready htol.le
+  exact ⟨o', hget, fun us vs ws hus hvs hws =>
+    Obj.derivSplineG_volume_u hb hv1 hv2 hv3 hs hr htol hdir hO hus hvs hws⟩
+
+/-- **Volume, direction 1** (same reading as for surfaces). -/
+theorem C03_derivative_spline_obj_volume_v {o : Obj K} {b1 b2 b3 : Basis K} (hb : o.bases = #[b1, b2, b3])
+    (hv1 : b1.Valid) (hv2 : b2.Valid) (hv3 : b3.Valid) (hready : b2.DSplineReady) {nc : ℕ}
+    (hs : o.cps.shape = [b1.numFunctions, b2.numFunctions, b3.numFunctions, nc]) (hr : o.rational = false)
+    {tol : K} (htol : 0 < tol) :
+    ∃ o', o.getDerivativeSpline tol 1 = .ok o' ∧
+      ∀ us vs ws : List K, (∀ u ∈ us, b1.Admissible tol u) → (∀ v ∈ vs, b2.DSplineOk tol v) →
+        (∀ w ∈ ws, b3.Admissible tol w) →
+        (∃ rv rd, o'.evaluate tol [us, vs, ws] true = .ok rv ∧
+          o.derivativeGeneric tol [us, vs, ws] [0, 1, 0] [true, true, true] true = .ok rd ∧
+          ∀ i1 i2 i3 c, i1 < us.length → i2 < vs.length → i3 < ws.length → c < nc →
+            rv.get (((i1 * vs.length + i2) * ws.length + i3) * nc + c) =
+              rd.get (((i1 * vs.length + i2) * ws.length + i3) * nc + c)) ∧
+        (vs.length = us.length → ws.length = us.length →
+          ∃ rv rd, o'.evaluate tol [us, vs, ws] false = .ok rv ∧
+            o.derivativeGeneric tol [us, vs, ws] [0, 1, 0] [true, true, true] false = .ok rd ∧
+            ∀ i c, i < us.length → c < nc → rv.get (i * nc + c) = rd.get (i * nc + c)) := by
+  obtain ⟨o', nb, hget, hO, hdir⟩ := Obj.exists_derivObj (o := o) (b := b2) (dir := 1)
+    (by unfold Obj.basis; rw [hb]; rfl) (by unfold Obj.pardim; rw [hs]; simp) (by rw [hs]; rfl) hr
+    hv2 hready htol.le
+  exact ⟨o', hget, fun us vs ws hus hvs hws =>
+    Obj.derivSplineG_volume_v hb hv1 hv2 hv3 hs hr htol hdir hO hus hvs hws⟩
+
+/-- **Volume, direction 2** (same reading as for surfaces). -/
+theorem C03_derivative_spline_obj_volume_w {o : Obj K} {b1 b2 b3 : Basis K} (hb : o.bases = #[b1, b2, b3])
+    (hv1 : b1.Valid) (hv2 : b2.Valid) (hv3 : b3.Valid) (hready : b3.DSplineReady) {nc : ℕ}
+    (hs : o.cps.shape = [b1.numFunctions, b2.numFunctions, b3.numFunctions, nc]) (hr : o.rational = false)
+    {tol : K} (htol : 0 < tol) :
+    ∃ o', o.getDerivativeSpline tol 2 = .ok o' ∧
+      ∀ us vs ws : List K, (∀ u ∈ us, b1.Admissible tol u) → (∀ v ∈ vs, b2.Admissible tol v) →
+        (∀ w ∈ ws, b3.DSplineOk tol w) →
+        (∃ rv rd, o'.evaluate tol [us, vs, ws] true = .ok rv ∧
+          o.derivativeGeneric tol [us, vs, ws] [0, 0, 1] [true, true, true] true = .ok rd ∧
+          ∀ i1 i2 i3 c, i1 < us.length → i2 < vs.length → i3 < ws.length → c < nc →
+            rv.get (((i1 * vs.length + i2) * ws.length + i3) * nc + c) =
+              rd.get (((i1 * vs.length + i2) * ws.length + i3) * nc + c)) ∧
+        (vs.length = us.length → ws.length = us.length →
+          ∃ rv rd, o'.evaluate tol [us, vs, ws] false = .ok rv ∧
+            o.derivativeGeneric tol [us, vs, ws] [0, 0, 1] [true, true, true] false = .ok rd ∧
+            ∀ i c, i < us.length → c < nc → rv.get (i * nc + c) = rd.get (i * nc + c)) := by
+  obtain ⟨o', nb, hget, hO, hdir⟩ := Obj.exists_derivObj (o := o) (b := b3) (dir := 2)
+    (by unfold Obj.basis; rw [hb]; rfl) (by unfold Obj.pardim; rw [hs]; simp) (by rw [hs]; rfl) hr
+    hv3 hready htol.le
+  exact ⟨o', hget, fun us vs ws hus hvs hws =>
+    Obj.derivSplineG_volume_w hb hv1 hv2 hv3 hs hr htol hdir hO hus hvs hws⟩
 
 /-- The derivative basis of a valid non-periodic basis of order ≥ 2 is valid, has one function less, the same
-domain, and keeps admissible parameters admissible. -/
-theorem C03_derivative_basis_valid {b nb : Basis K} (h : IsDerivBasis b nb) (hv : b.Valid)
-    (hper : b.periodic = -1) (hp : 2 ≤ b.order) :
-    nb.Valid ∧ nb.numFunctions = b.numFunctions - 1 ∧ nb.start = b.start ∧ nb.stop = b.stop ∧
-      ∀ tol u, b.Admissible tol u → nb.Admissible tol u :=
-  ⟨h.valid hv hp, h.numFunctions hper hp hv, h.start_eq hv hp, h.stop_eq hv hp,
-    fun _ _ hu => h.admissible hv hper hp hu⟩
+domain, and keeps admissible parameters admissible; for a periodic basis with ≥ 2 functions it is valid with the
+SAME number of functions, domain and wrap (continuity `k-1`). -/
+theorem C03_derivative_basis_valid {b nb : Basis K} (hv : b.Valid) :
+    (IsDerivBasis b nb → b.periodic = -1 → 2 ≤ b.order →
+      nb.Valid ∧ nb.numFunctions = b.numFunctions - 1 ∧ nb.start = b.start ∧ nb.stop = b.stop ∧
+        ∀ tol u, b.Admissible tol u → nb.Admissible tol u) ∧
+    (IsDerivBasisP b nb → 0 ≤ b.periodic → 2 ≤ b.numFunctions →
+      nb.Valid ∧ nb.numFunctions = b.numFunctions ∧ nb.start = b.start ∧ nb.stop = b.stop ∧
+        ∀ tol u, b.DSplineOk tol u → nb.Admissible tol u) :=
+  ⟨fun h hper hp => ⟨h.valid hv hp, h.numFunctions hper hp hv, h.start_eq hv hp, h.stop_eq hv hp,
+      fun _ _ hu => h.admissible hv hper hp hu⟩,
+    fun h hper hn => ⟨h.valid hv hper hn, h.numFunctions hv hper hn, h.start_eq hv hper hn,
+      h.stop_eq hv hper hn, fun _ _ hu => h.admissible hv hper hn hu⟩⟩
+
+/-- **`above` is irrelevant away from the knots**: at a parameter that is not a knot value (of a non-periodic
+basis; the wrapped parameter for a periodic one) the specification rows for `above=False` and `above=True`
+coincide for every derivative order — so there all the statements above hold for `above=False` as well. -/
+theorem C03_above_irrelevant_off_knots {b : Basis K} (hv : b.Valid) (u : K) (d j : ℕ) :
+    (b.periodic < 0 → (∀ i, b.kn i ≠ u) → b.rowSpec u false d j = b.rowSpec u true d j) ∧
+    (¬ b.periodic < 0 → (∀ i, b.kn i ≠ b.wrap u) → b.rowSpec u false d j = b.rowSpec u true d j) := by
+  constructor
+  · intro hper hk
+    have h1 : u ≠ b.start := fun h => hk (b.order - 1) (by rw [← b.start_eq]; exact h.symm)
+    have h2 : u ≠ b.stop := fun h => hk b.nAll (by rw [← b.stop_eq]; exact h.symm)
+    unfold Basis.rowSpec
+    rw [if_pos hper, if_pos hper, if_neg (fun h => h1 h.1), if_neg (fun h => h1 h.1)]
+    unfold effSide
+    rw [if_neg h2, if_neg h2]
+    simp only [Bool.false_eq_true, if_false, if_true]
+    exact dB_left_eq_right_of_not_knot b.kn hv.kn_mono u _ j d hk
+  · intro hper hk
+    have h1 : b.wrap u ≠ b.start := fun h => hk (b.order - 1) (by rw [← b.start_eq]; exact h.symm)
+    have h2 : b.wrap u ≠ b.stop := fun h => hk b.nAll (by rw [← b.stop_eq]; exact h.symm)
+    unfold Basis.rowSpec
+    rw [if_neg hper, if_neg hper]
+    apply Finset.sum_congr rfl
+    intro i _
+    unfold periodicEff
+    rw [if_neg (fun h => h1 h.1), if_neg (fun h => h1 h.1)]
+    unfold effSide
+    simp only [if_neg h2, Bool.false_eq_true, if_false, if_true]
+    exact dB_left_eq_right_of_not_knot b.kn hv.kn_mono (b.wrap u) _ i d hk
 
 end dsplineobj
 
@@ -1302,3 +1429,73 @@ example : C02_exLin.kn (C02_exLin.order - 1) = C02_exLin.kn 0 ∧
     C02_exLin.kn (C02_exLin.nAll + C02_exLin.order - 1) = C02_exLin.kn C02_exLin.nAll ∧
     2 ≤ C02_exLin.order ∧ C02_exLin.periodic = -1 := by
   refine ⟨?_, ?_, ?_, ?_⟩ <;> norm_num [Basis.kn, Basis.nAll, C02_exLin]
+
+/-! ### Instances of the object-level derivative-spline theorems (concrete objects of C01 / C02) -/
+
+/-- The clamped quadratic basis `[0,0,0,1,2,2,3,3,3]` and the linear basis `[0,0,1,1]` are ready. -/
+theorem C03_exOpen_ready : C01_exOpen.DSplineReady := by
+  left
+  refine ⟨rfl, by decide, ?_, ?_⟩ <;> norm_num [Basis.kn, Basis.nAll, C01_exOpen]
+
+theorem C03_exLin_ready : C02_exLin.DSplineReady := by
+  left
+  refine ⟨rfl, by decide, ?_, ?_⟩ <;> norm_num [Basis.kn, Basis.nAll, C02_exLin]
+
+/-- The `C⁰`-periodic quadratic basis `[-1,0,0,1,2,3,3,4]` (4 functions) is ready. -/
+theorem C03_exPer_ready : C01_exPer.DSplineReady := by
+  right
+  exact ⟨by decide, by decide⟩
+
+/-- Curve (`C02_exCurve`, 6 control points): `get_derivative_spline(0)` succeeds and agrees with `derivative`
+at `[1/2, 3]`, grid and pointwise. -/
+example : ∃ o', C02_exCurve.getDerivativeSpline (1/1000) 0 = .ok o' ∧
+    ∀ tensor, ∃ rv rd, o'.evaluate (1/1000) [[1/2, 3]] tensor = .ok rv ∧
+      C02_exCurve.derivativeGeneric (1/1000) [[1/2, 3]] [1] [true] tensor = .ok rd ∧
+      ∀ i c, i < 2 → c < 2 → rv.get (i * 2 + c) = rd.get (i * 2 + c) := by
+  obtain ⟨o', h1, h2⟩ := C03_derivative_spline_obj_curve (o := C02_exCurve) rfl C01_exOpen_valid
+    C03_exOpen_ready (nc := 2) rfl rfl (tol := 1/1000) (by norm_num)
+  exact ⟨o', h1, fun tensor =>
+    h2 [1/2, 3] (fun u hu => ⟨C02_exOpen_adm u hu, fun h => absurd h (by decide)⟩) tensor⟩
+
+/-- Periodic curve (`C02_exCurvePer`, `C⁰` seam): the derivative spline is no longer periodic and agrees with
+`derivative` at `1/2`. -/
+example : ∃ o', C02_exCurvePer.getDerivativeSpline (1/1000) 0 = .ok o' ∧
+    ∃ rv rd, o'.evaluate (1/1000) [[1/2]] true = .ok rv ∧
+      C02_exCurvePer.derivativeGeneric (1/1000) [[1/2]] [1] [true] true = .ok rd ∧
+      ∀ i c, i < 1 → c < 2 → rv.get (i * 2 + c) = rd.get (i * 2 + c) := by
+  obtain ⟨o', h1, h2⟩ := C03_derivative_spline_obj_curve (o := C02_exCurvePer) rfl C01_exPer_valid
+    C03_exPer_ready (nc := 2) rfl rfl (tol := 1/1000) (by norm_num)
+  refine ⟨o', h1, h2 [1/2] ?_ true⟩
+  intro u hu
+  simp only [List.mem_cons, List.not_mem_nil, or_false] at hu
+  subst hu
+  refine ⟨⟨C01_exPer_exact_half, fun h => absurd h (by decide), fun _ => ?_⟩, fun _ => ?_⟩
+  · rw [Basis.wrap_of_mem _ (by rw [C01_exPer_start]; norm_num) (by rw [C01_exPer_stop]; norm_num)]
+    exact C01_exPer_exact_half
+  · rw [C01_exPer_start, C01_exPer_stop]; norm_num
+
+/-- Surface (`C02_exSurf`), both directions, grid and pointwise. -/
+example := C03_derivative_spline_obj_surface_u (o := C02_exSurf) rfl C02_exLin_valid C02_exLin_valid
+  C03_exLin_ready (nc := 3) rfl rfl (tol := 1/1000) (by norm_num)
+
+example : ∃ o', C02_exSurf.getDerivativeSpline (1/1000) 1 = .ok o' ∧
+    ∃ rv rd, o'.evaluate (1/1000) [[1/2, 1], [1/2, 1]] false = .ok rv ∧
+      C02_exSurf.derivativeGeneric (1/1000) [[1/2, 1], [1/2, 1]] [0, 1] [true, true] false = .ok rd ∧
+      ∀ i c, i < 2 → c < 3 → rv.get (i * 3 + c) = rd.get (i * 3 + c) := by
+  obtain ⟨o', h1, h2⟩ := C03_derivative_spline_obj_surface_v (o := C02_exSurf) rfl C02_exLin_valid
+    C02_exLin_valid C03_exLin_ready (nc := 3) rfl rfl (tol := 1/1000) (by norm_num)
+  exact ⟨o', h1, (h2 [1/2, 1] [1/2, 1] C02_exLin_adm
+    (fun v hv => ⟨C02_exLin_adm v hv, fun h => absurd h (by decide)⟩)).2 rfl⟩
+
+/-- Volume (`C02_exVol`), third direction. -/
+example : ∃ o', C02_exVol.getDerivativeSpline (1/1000) 2 = .ok o' ∧
+    ∃ rv rd, o'.evaluate (1/1000) [[1/2, 1], [1/2], [1/2, 1]] true = .ok rv ∧
+      C02_exVol.derivativeGeneric (1/1000) [[1/2, 1], [1/2], [1/2, 1]] [0, 0, 1] [true, true, true] true
+        = .ok rd ∧
+      ∀ i1 i2 i3 c, i1 < 2 → i2 < 1 → i3 < 2 → c < 1 →
+        rv.get (((i1 * 1 + i2) * 2 + i3) * 1 + c) = rd.get (((i1 * 1 + i2) * 2 + i3) * 1 + c) := by
+  obtain ⟨o', h1, h2⟩ := C03_derivative_spline_obj_volume_w (o := C02_exVol) rfl C02_exLin_valid
+    C02_exLin_valid C02_exLin_valid C03_exLin_ready (nc := 1) rfl rfl (tol := 1/1000) (by norm_num)
+  exact ⟨o', h1, (h2 [1/2, 1] [1/2] [1/2, 1] C02_exLin_adm
+    (fun v hv => C02_exLin_adm v (by simp at hv ⊢; left; exact hv))
+    (fun w hw => ⟨C02_exLin_adm w hw, fun h => absurd h (by decide)⟩)).1⟩
